@@ -964,8 +964,29 @@ func (c01) Run(ctx *Ctx, ci interface{}) (o Outcome) {
 				}
 			}
 		case "translate":
-			if cont.Alphabet() != align.NUCLEOTIDS || n == 0 {
+			if n == 0 {
 				applied = false
+				break
+			}
+			if cont.Alphabet() != align.NUCLEOTIDS {
+				// not nucleotides (translated already): the operation is refused and leaves everything as it was,
+				// the alphabet included
+				ab := cont.Alphabet()
+				var err error
+				if isAl {
+					err = al.Translate(op.N, 0)
+				} else {
+					err = cont.Translate(op.N, 0)
+				}
+				if err == nil {
+					fail("add-verdict", "Translate of a container whose alphabet is %d (not nucleotides) reports no error", ab)
+					return
+				}
+				if cont.Alphabet() != ab {
+					fail("refused-operation-changed-the-container", "Translate was refused (%v) and the alphabet of the container went from %d to %d", err, ab, cont.Alphabet())
+					return
+				}
+				o.Add("rejected_operations", 1)
 				break
 			}
 			modelled = false
